@@ -9,7 +9,7 @@ THEOREMS = ["GrpcProofs.C10." + t for t in (
     "status_roundtrip_partial", "status_roundtrip_counterexample_code", "status_roundtrip_counterexample_details",
     "code_ge_2p31_malformed", "details_lost_when_unmarshalable", "handler_nil_client_nil", "nonok_never_nil",
     "plain_error_unknown", "paths_agree", "message_roundtrip", "message_roundtrip_valid", "grpc_status_decimal",
-    "details_bin_roundtrip", "client_switch_names")]
+    "details_bin_roundtrip", "proto_roundtrip", "client_switch_names")]
 DESIGN_REF = "DESIGN.md section 8, C10"
 TECHNIQUE = ("Lean 4 theorems about a model of writeStatus -> trailer fields -> client operateHeaders/NewWithProto "
              "(list induction, omega for base64/varint/decimal arithmetic) + T2 end-to-end correspondence (real grpc.Server and "
@@ -22,12 +22,12 @@ LEVEL_TEXT = ("Machine-checked Lean proofs about a model of writeStatus -> trail
 LEVEL_NOTE = ("Readings: (1) the statement's domain is handlers that do not themselves put grpc-status-details-bin into the trailer (the code deliberately "
               "lets such a value stand in for the details: theorem hypothesis hu, monitor checks only the never-nil clause on those ops); (2) detail type URLs are "
               "valid UTF-8 (proto3 string); (3) a non-nil handler error whose GRPCStatus() is OK is outside the statement (observed: client sees nil, or INTERNAL "
-              "cardinality violation on a unary call without reply). Trusted, modelled and differentially tied but not proved: protobuf wire encoding of "
-              "google.rpc.Status (hypothesis hp of status_roundtrip_partial: unmarshal(marshal st) = st), strconv.Itoa/ParseInt, unicode/utf8, encoding/base64 "
-              "(the Lean ports of these are what the theorems are about), HPACK/http2 framing (fields are delivered as sent).")
+              "cardinality violation on a unary call without reply). Trusted: the Lean ports of the protobuf wire encoding of google.rpc.Status, strconv.Itoa/ParseInt, "
+              "unicode/utf8 and encoding/base64 (the round-trip theorems are proved ABOUT these ports; the ports are tied to the Go code by the differential "
+              "runs, incl. crafted wire encodings), HPACK/http2 framing (fields are delivered as sent).")
 GAP = ("header-list-size limits (a status larger than the peer's MaxHeaderListSize is turned into RST_STREAM/INTERNAL by writeStatus; not modelled, "
        "generator keeps statuses small); HPACK and HTTP/2 framing; goroutine scheduling of the real transports (exercised, not modelled)")
-ASSUMPTIONS = ["protobuf: proto.Unmarshal(proto.Marshal(s)) = s for google.rpc.Status with valid UTF-8 strings (hypothesis hp)",
+ASSUMPTIONS = ["the marshalled google.rpc.Status is shorter than 2^64 bytes (hypothesis hsz; every Go slice is)",
                "the http2 framer/HPACK deliver the trailer fields exactly as writeStatus queued them",
                "utf8.DecodeRune followed by string(r) reproduces the bytes of a valid encoding (canonical UTF-8)"]
 RULE = ("s_status: one real RPC per op; every response path (unary, unary-on-stream with reply, stream trailers-only with/without reading, "
